@@ -46,6 +46,9 @@ def grammar(tier):
     for s in (".5", "5.", ".", "e3", "1e", "1e400", "-1e400", "1__2", "_1", "1_", "0x10", "0b1", "0o7", "1,5", "1 2", "١٫٥",
               "9" * 20, "-" + "9" * 20, "1" + "0" * 400, "9" * 5000):
         add("num:edge", s)
+    for s in ("1.23456789012345", "123456789.123", "0.1", "0.30000000000000004", "1e-7", "1e16", "1e22", "1.5e300", "3.14159", "-0.0", "-0",
+              "+0", "00", "1_000_000", "9007199254740993", "0.000001", "1E5", "123456789012345678", "2.5e-324", "1e-400"):
+        add("num:long", s)
     for w in ("true", "false"):
         for m in range(1 << len(w)):
             s = "".join(ch.upper() if m >> i & 1 else ch for i, ch in enumerate(w))
